@@ -44,25 +44,25 @@ Print Assumptions C13_one_section_one_selector.
 
 (* The traces of the code (processBdReq for every request kind, ReloadSubnets) are wf ... *)
 Theorem C13_code_traces_wf :
-  (forall k, wf (trace_of_req k) = true) /\ wf reload_trace = true.
-Proof. exact (conj trace_of_req_wf reload_trace_wf). Qed.
+  (forall k, wf (trace_of_req k) = true) /\ wf reload_trace = true /\ wf reload_fail_trace = true.
+Proof. exact (conj trace_of_req_wf (conj reload_trace_wf eq_refl)). Qed.
 Print Assumptions C13_code_traces_wf.
 
-(* ... hence k requests of any kinds and m reloads never block, *)
-Theorem C13_code_deadlock_free : forall v reqs m c, reach (code_cfg v reqs m) c ->
+(* ... hence k requests of any kinds, m reloads that succeed and f that fail never block, *)
+Theorem C13_code_deadlock_free : forall v reqs m f c, reach (code_cfg v reqs m f) c ->
   all_done c = true \/ exists i c', step c i = Some c'.
 Proof. exact code_deadlock_free. Qed.
 Print Assumptions C13_code_deadlock_free.
 
 (* each request's selections (IPv4 and IPv6) come from one selector, *)
-Theorem C13_code_request_one_selector : forall v reqs m c j t,
-  reach (code_cfg v reqs m) c -> j < length reqs -> nth_error (threads c) j = Some t ->
+Theorem C13_code_request_one_selector : forall v reqs m f c j t,
+  reach (code_cfg v reqs m f) c -> j < length reqs -> nth_error (threads c) j = Some t ->
   exists u, v <= u <= ver c /\ forall x, In x (concat (tlog t)) -> x = u.
 Proof. exact code_request_one_selector. Qed.
 Print Assumptions C13_code_request_one_selector.
 
-(* and when everything has finished all m reloads have taken effect. *)
-Theorem C13_code_reloads_take_effect : forall v reqs m c,
-  reach (code_cfg v reqs m) c -> all_done c = true -> ver c = v + m.
+(* and when everything has finished exactly the m successful reloads have taken effect. *)
+Theorem C13_code_reloads_take_effect : forall v reqs m f c,
+  reach (code_cfg v reqs m f) c -> all_done c = true -> ver c = v + m.
 Proof. exact code_reloads_take_effect. Qed.
 Print Assumptions C13_code_reloads_take_effect.
